@@ -10,6 +10,13 @@ func propertyTable() map[string]PropertyCfg {
 			},
 			NotDecided: []string{"the shift-then-unshift law is proved as a lemma over the contract of Add (harness addThenSub) when present; see samples"},
 		},
+		"C11": {ID: "C11",
+			Assumptions: []string{
+				"precondition: cue pointers non-nil and pairwise distinct",
+				"the text of a cue is the abstract function txt = result of Item.String(), assumed to be a deterministic function of the cue's Lines (header, line and run contents); Item.String's body is a trusted definition",
+			},
+			NotDecided: []string{"the inverse law Unfragment(Fragment(x)) == x needs a functional specification of Unfragment as the components of the same-text-touching relation and an induction over components: not decided"},
+		},
 		"C12": {ID: "C12",
 			Assumptions: []string{
 				"precondition of Merge: receiver and argument are distinct lists, the argument's backing array is not the receiver's spare capacity, the argument's map keys equal the ID of their value",
